@@ -105,6 +105,55 @@ func suiteIsolation(c *Ctx) {
 	}
 	// documents that name no Redis keys (in-memory exports) imported under new keys, twice
 	jsonCrossBackend(c)
+	isolationDegenerate(c)
+}
+
+// isolationDegenerate: structures of degenerate size (a Bloom filter of zero bits: error rate 1,
+// or built from an empty word list) are structures like any other: their own keys, not shared.
+func isolationDegenerate(c *Ctx) {
+	c.mr.FlushAll()
+	mk := []func() (*gostatix.BloomFilter, error){
+		func() (*gostatix.BloomFilter, error) { return gostatix.NewRedisBloomFilterWithParameters(10, 1.0) },
+		func() (*gostatix.BloomFilter, error) { return gostatix.NewRedisBloomFilterFromBitSet(nil, 2) },
+		func() (*gostatix.BloomFilter, error) { return gostatix.NewRedisBloomFilterWithParameters(7, 1.0) },
+	}
+	var fs []*gostatix.BloomFilter
+	keysOf := map[string]int{}
+	for i, f := range mk {
+		var g *gostatix.BloomFilter
+		var err error
+		if res := safely(func() { g, err = f() }); res.panicked || err != nil || g == nil {
+			continue
+		}
+		fs = append(fs, g)
+		mkKey := g.GetMetadataKey()
+		bk := c.mr.HGet(mkKey, "bitsetKey")
+		for _, k := range []string{mkKey, bk} {
+			if j, dup := keysOf[k]; dup && j != i {
+				c.fail([]string{"C19"}, "structures-share-a-key", fmt.Sprintf("two independently created zero-size Bloom filters use the same Redis key %q", k), k)
+				return
+			}
+			keysOf[k] = i
+		}
+	}
+	if len(fs) < 2 {
+		return
+	}
+	c.rep.Cases++
+	before := make([]string, len(fs))
+	for i, g := range fs {
+		d, _ := g.Export()
+		before[i] = string(d)
+	}
+	safely(func() { fs[0].Insert([]byte("only into the first")) })
+	for i, g := range fs[1:] {
+		d, _ := g.Export()
+		if string(d) != before[i+1] {
+			c.fail([]string{"C19"}, "structure-disturbed", fmt.Sprintf("an Insert into one zero-size Bloom filter changed what another, independently created one exports: %.80s -> %.80s", before[i+1], d), nil)
+			return
+		}
+	}
+	c.branch("degenerate-sizes")
 }
 
 func isolationCase(c *Ctx) {
